@@ -634,7 +634,7 @@ func (d *driver) phaseCrash() {
 
 func (d *driver) truncLens(m *modInfo) (ts []int, exhaustive bool) {
 	n := len(m.Entry)
-	limit := d.c.N(6000, 400000)
+	limit := d.c.N(1200, 400000)
 	if n <= limit {
 		for t := 0; t < n; t++ {
 			ts = append(ts, t)
@@ -652,14 +652,14 @@ func (d *driver) truncLens(m *modInfo) (ts []int, exhaustive bool) {
 			addt(b + dd)
 		}
 	}
-	edge := d.c.N(300, 3000)
+	edge := d.c.N(48, 3000)
 	for t := 0; t < edge; t++ {
 		addt(t)
 		addt(n - 1 - t)
 		addt(m.L.CRCOff - t)
 		addt(m.L.CodeOff + t)
 	}
-	stride := n/d.c.N(400, 4000) + 1
+	stride := n/d.c.N(120, 4000) + 1
 	for t := 0; t < n; t += stride {
 		addt(t)
 	}
